@@ -62,6 +62,9 @@ fn case_dt_add(loc: &mut Local, x: &Ix, a: RDt, d_ns: i128, sub: bool) {
         Ok(g) => g,
         Err(p) => return loc.violation(&format!("C03/{}/panic@{}", entry, p.site()), json!({"input": input(), "panic": p.to_json()})),
     };
+    if let Some(why) = got.and_then(|g| ri::date_defect(&g.date())) {
+        return loc.violation(&format!("C03/{}/returned-value-is-not-a-valid-date", entry), json!({"input": input(), "defect": why}));
+    }
     let got_r = got.map(|g| RDt::of(&g));
     if got_r != exp {
         let kind = match (got_r, exp) {
@@ -419,6 +422,9 @@ fn case_date_days(loc: &mut Local, x: &Ix, day: i64, n: u64, sub: bool) {
         Ok(g) => g,
         Err(p) => return loc.violation(&format!("C03/{}/panic@{}", entry, p.site()), json!({"input": input(), "panic": p.to_json()})),
     };
+    if let Some(why) = got.and_then(|g| ri::date_defect(&g)) {
+        return loc.violation(&format!("C03/{}/returned-value-is-not-a-valid-date", entry), json!({"input": input(), "defect": why}));
+    }
     let got_n = got.map(|g| g_days(&g));
     if got_n != exp {
         let kind = match (got_n, exp) {
@@ -492,6 +498,9 @@ fn case_date_signed(loc: &mut Local, x: &Ix, day: i64, d_ns: i128, sub: bool) {
         Ok(g) => g,
         Err(p) => return loc.violation(&format!("C03/{}/panic@{}", entry, p.site()), json!({"input": input(), "panic": p.to_json()})),
     };
+    if let Some(why) = got.and_then(|g| ri::date_defect(&g)) {
+        return loc.violation(&format!("C03/{}/returned-value-is-not-a-valid-date", entry), json!({"input": input(), "defect": why}));
+    }
     if got.map(|g| g_days(&g)) != exp {
         loc.violation(&format!("C03/{}/wrong-date-or-refusal", entry), json!({"input": input(), "expected_day_number": exp, "observed": got.map(|g| g.to_string())}));
     }
